@@ -5,7 +5,7 @@
    property directly.  Termination of the MODEL is by construction (structural recursion on fuel); that the fuel the
    driver passes suffices is observed on every run (no FUEL outcome), not yet proved.  Proved so far - the tokenizer's
    behaviour on the token classes the top-level loop dispatches on (for every amount of leading horizontal whitespace): *)
-Require Import Bebop.front.Tok Bebop.front.TokInv Bebop.front.LexInv Bebop.front.Parse Bebop.front.ParseInv Bebop.front.FmtInv Bebop.front.MsgInv Bebop.front.GenInv Bebop.front.Items.
+Require Import Bebop.front.Tok Bebop.front.TokInv Bebop.front.LexInv Bebop.front.Parse Bebop.front.ParseInv Bebop.front.FmtInv Bebop.front.MsgInv Bebop.front.GenInv Bebop.front.Items Bebop.front.TyInv Bebop.front.TyMsg Bebop.front.TyItems Bebop.front.Schema.
 From Coq Require Import List NArith.
 Import ListNotations.
 
@@ -110,49 +110,70 @@ Proof.
 Qed.
 Print Assumptions C11_records.
 
-(* And with ENUMS, through the item framework of front/GenInv.v (each kind of definition contributes its tokens, what it adds
-   to the File and one step lemma for the top-level loop; front/Items.v has the three instances): a schema is any sequence
-   of struct, readonly struct, message and enum definitions (enums untyped, members with plain decimal values; the
-   readonly marker lands on the struct it precedes and on no other).  For EVERY such schema and
-   EVERY layout ReadFile returns the File the text states, which schema_file_spec writes out: each kind of definition in
-   source order, nothing else. *)
+(* And with ENUMS and CONTAINER TYPES, through the item framework of front/GenInv.v (each kind of definition contributes its
+   tokens, what it adds to the File and one step lemma for the top-level loop; front/Items.v and front/TyItems.v have the
+   instances): a schema is any sequence of struct, readonly struct, message and enum definitions; a field type is an
+   identifier, array[T], map[K, V] with a primitive key, or any of those followed by any number of [] - nested to ANY depth
+   (front/TyInv.v: read_field_type on the tokens of a type expression, by induction on the expression); enums untyped,
+   members with plain decimal values; the readonly marker lands on the struct it precedes and on no other.  For EVERY such
+   schema and EVERY layout ReadFile returns the File the text states, which schema_file_spec writes out: each kind of
+   definition in source order, field types as the expression's structure says (ft_of), nothing else. *)
 Definition C11_schema_statement : Prop :=
   (forall dl lay tail,
      Forall sdefn_ok dl -> map snd lay = schema_lexemes dl -> Forall (fun p => hws (fst p)) lay -> sep_ok lay -> hws tail ->
      exists s', read_file (render lay tail) false = POk (schema_file dl) s') /\
   (forall dl,
-     structs (schema_file dl) = flat_map (fun d => match d with SStruct nm fl _ => [struct_of (ibytes nm) (map (fun f => (ibytes (fst f), ibytes (snd f))) fl)] | SReadonly nm fl _ => [struct_of_ro (ibytes nm) (map (fun f => (ibytes (fst f), ibytes (snd f))) fl)] | _ => [] end) dl /\
-     messages (schema_file dl) = flat_map (fun d => match d with SMessage nm fl _ => [message_of (ibytes nm) (map bmf fl)] | _ => [] end) dl /\
-     enums (schema_file dl) = flat_map (fun d => match d with SEnum nm ml _ => [enum_of (ibytes nm) (map bem ml)] | _ => [] end) dl /\
-     unions (schema_file dl) = [] /\ consts (schema_file dl) = [] /\ imports (schema_file dl) = [] /\ gopackage (schema_file dl) = []).
+     structs (schema_file dl) = flat_map structs_of dl /\
+     messages (schema_file dl) = flat_map messages_of dl /\
+     enums (schema_file dl) = flat_map enums_of dl /\
+     unions (schema_file dl) = [] /\ consts (schema_file dl) = [] /\ imports (schema_file dl) = [] /\ gopackage (schema_file dl) = []) /\
+  (* what the pieces are *)
+  (forall nm fl k, structs_of (SStruct nm fl k) =
+     [{| s_name := ibytes nm; s_comment := []; s_opcode := 0; s_readonly := false;
+         s_fields := map (fun f => {| f_type := ft_of (bty (fst f)); f_name := ibytes (snd f); f_comment := []; f_tags := []; f_depmsg := []; f_dep := false |}) fl |}]) /\
+  (forall nm fl k, structs_of (SReadonly nm fl k) =
+     [{| s_name := ibytes nm; s_comment := []; s_opcode := 0; s_readonly := true;
+         s_fields := map (fun f => {| f_type := ft_of (bty (fst f)); f_name := ibytes (snd f); f_comment := []; f_tags := []; f_depmsg := []; f_dep := false |}) fl |}]) /\
+  (forall nm fl k, messages_of (SMessage nm fl k) =
+     [{| m_name := ibytes nm; m_comment := []; m_opcode := 0;
+         m_fields := map (fun f => (xv (fst f), {| f_type := ft_of (bty (fst (snd f))); f_name := ibytes (snd (snd f)); f_comment := []; f_tags := []; f_depmsg := []; f_dep := false |})) fl |}]) /\
+  (* and what a type expression denotes: the identifier, array or map, wrapped in one array per [] *)
+  (forall i n, ft_of (bty (LSimple i n)) = wrap n (FSimple (ibytes i))) /\
+  (forall t n, ft_of (bty (LArray t n)) = wrap n (FArray (ft_of (bty t)))) /\
+  (forall k v n, ft_of (bty (LMap k v n)) = wrap n (FMap (ibytes k) (ft_of (bty v)))).
 Lemma Forall_map' (dl : list sdefn) : Forall sdefn_ok dl -> Forall xel_ok (map xel_of dl).
 Proof. induction 1; cbn [map]; constructor; [now apply xel_of_ok|assumption]. Qed.
 Theorem C11_schema : C11_schema_statement.
 Proof.
-  split; [|exact schema_file_spec]. intros dl lay tail H1 H2 H3 H4 H5.
-  destruct (schema_laws dl lay tail H1 H2 H3 H4 H5) as (y & _ & _ & _ & _ & Hr). exact Hr.
+  split; [|split; [exact schema_file_spec|]].
+  - intros dl lay tail H1 H2 H3 H4 H5.
+    destruct (schema_laws dl lay tail H1 H2 H3 H4 H5) as (y & _ & _ & _ & _ & Hr). exact Hr.
+  - repeat split; intros; unfold structs_of, messages_of, tstruct_of, tstruct_of_ro, tmessage_of; rewrite ?map_map; reflexivity.
 Qed.
-(* the hypotheses are met (an enum, a readonly struct, a message, an empty struct; blank lines), and the conclusion computed *)
+(* the hypotheses are met (an enum, a readonly struct with a map of arrays, a message with nested containers, an empty struct;
+   blank lines), and the conclusion computed *)
 Example C11_schema_witness :
   let E := {| ic := 69%N; itl := [] |} in let R := {| ic := 82%N; itl := [111%N] |} in let M := {| ic := 77%N; itl := [] |} in
   let S := {| ic := 83%N; itl := [] |} in let A := {| ic := 65%N; itl := [] |} in let B := {| ic := 66%N; itl := [] |} in
-  let i32 := {| ic := 105%N; itl := [110; 116; 51; 50]%N |} in let x := {| ic := 120%N; itl := [] |} in
+  let i32 := {| ic := 105%N; itl := [110; 116; 51; 50]%N |} in let x := {| ic := 120%N; itl := [] |} in let y := {| ic := 121%N; itl := [] |} in
+  let str := {| ic := 115%N; itl := [116; 114; 105; 110; 103]%N |} in
   let one := {| xc := 49%N; xds := []; xv := 1%N |} in let n200 := {| xc := 50%N; xds := [48; 48]%N; xv := 200%N |} in
-  let dl := [SEnum E [(A, one); (B, n200)] 1; SReadonly R [(i32, x)] 0; SMessage M [(n200, (R, x)); (one, (E, x))] 2; SStruct S [] 0] in
+  let dl := [SEnum E [(A, one); (B, n200)] 1;
+             SReadonly R [(LMap str (LArray (LSimple i32 1) 0) 2, x); (LSimple i32 0, y)] 0;
+             SMessage M [(n200, (LArray (LMap i32 (LSimple R 0) 0) 1, x)); (one, (LSimple E 3, y))] 2;
+             SStruct S [] 0] in
   let lay := glayout (map xel_of dl) in
   Forall sdefn_ok dl /\ map snd lay = schema_lexemes dl /\ sep_ok lay /\
   (exists s', read_file (render lay []) false = POk (schema_file dl) s') /\
-  map s_readonly (structs (schema_file dl)) = [true; false].
+  map s_readonly (structs (schema_file dl)) = [true; false] /\
+  map (fun f => f_type f) (flat_map s_fields (structs (schema_file dl)))
+  = [FArray (FArray (FMap (ibytes str) (FArray (FArray (FSimple (ibytes i32)))))); FSimple (ibytes i32)].
 Proof.
   cbv zeta.
-  assert (Hok : Forall sdefn_ok [SEnum {| ic := 69%N; itl := [] |} [({| ic := 65%N; itl := [] |}, {| xc := 49%N; xds := []; xv := 1%N |}); ({| ic := 66%N; itl := [] |}, {| xc := 50%N; xds := [48; 48]%N; xv := 200%N |})] 1;
-      SReadonly {| ic := 82%N; itl := [111%N] |} [({| ic := 105%N; itl := [110; 116; 51; 50]%N |}, {| ic := 120%N; itl := [] |})] 0;
-      SMessage {| ic := 77%N; itl := [] |} [({| xc := 50%N; xds := [48; 48]%N; xv := 200%N |}, ({| ic := 82%N; itl := [111%N] |}, {| ic := 120%N; itl := [] |}));
-                                            ({| xc := 49%N; xds := []; xv := 1%N |}, ({| ic := 69%N; itl := [] |}, {| ic := 120%N; itl := [] |}))] 2;
-      SStruct {| ic := 83%N; itl := [] |} [] 0]).
+  match goal with |- Forall sdefn_ok ?d /\ _ => assert (Hok : Forall sdefn_ok d) end.
   { repeat constructor; cbn; intuition discriminate. }
   split; [exact Hok|].
   assert (Hx : Forall xel_ok (map xel_of _)) by (eapply Forall_map'; exact Hok).
-  split; [exact (glayout_lex _ Hx)|]. split; [exact (glayout_sep _ Hx)|]. split; [eexists; vm_compute; reflexivity|vm_compute; reflexivity].
+  split; [exact (glayout_lex _ Hx)|]. split; [exact (glayout_sep _ Hx)|]. split; [eexists; vm_compute; reflexivity|]. split; vm_compute; reflexivity.
 Qed.
 Print Assumptions C11_schema.
